@@ -389,7 +389,7 @@ func (c *FnCtx) execReturn(st *State, x *ast.ReturnStmt) []Outcome {
 			st.vars[rv] = res[i]
 		}
 	}
-	return []Outcome{{st: st, kind: oReturn, res: res}}
+	return []Outcome{{st: st, kind: oReturn, res: res, ret: x}}
 }
 
 // ---- loops ----
@@ -841,9 +841,12 @@ func (c *FnCtx) collectMods(n ast.Node, ms *modSet, info *types.Info, depth int)
 				}
 			}
 			sub := &FnCtx{e: c.e, fi: c.fi, info: info}
-			key, _ := sub.calleeKey(y)
+			key, fnObj := sub.calleeKey(y)
 			if key == "" {
 				key = sub.funcValKeyInfo(y, info, c.baseKey())
+			}
+			if fnObj != nil {
+				c.e.sigByKey[key] = fnObj.Type().(*types.Signature)
 			}
 			if dr, _ := isDroppedCallee(key); dr {
 				return true
@@ -1067,6 +1070,21 @@ func (c *FnCtx) calleeVarType(name string, fc *FuncContract, key string) types.T
 		for i := 0; i < fi.Sig.Params().Len(); i++ {
 			if fi.Sig.Params().At(i).Name() == name {
 				return fi.Sig.Params().At(i).Type()
+			}
+		}
+	}
+	// functions without a body here (interface methods, dependencies): the signature seen at a call site
+	if sig := c.e.sigByKey[key]; sig != nil {
+		if r := sig.Recv(); r != nil && (name == "self" || (r.Name() != "" && r.Name() == name)) {
+			return r.Type()
+		}
+		for i := 0; i < sig.Params().Len(); i++ {
+			pn := sig.Params().At(i).Name()
+			if i < len(fc.Params) {
+				pn = fc.Params[i]
+			}
+			if pn == name {
+				return sig.Params().At(i).Type()
 			}
 		}
 	}
@@ -1295,14 +1313,14 @@ func (c *FnCtx) runDefers(o Outcome) []Outcome {
 							}
 						}
 					}
-					next = append(next, Outcome{st: d2.st, kind: oReturn, res: res})
+					next = append(next, Outcome{st: d2.st, kind: oReturn, res: res, ret: oc.ret})
 				}
 			} else {
 				// plain deferred call with pre-evaluated args: re-evaluate as a call now.
 				// (argument values at defer time are approximated by evaluation at return time
 				// only when the arguments are pure identifiers that were not reassigned)
 				c.evalCall(st, df.call)
-				next = append(next, Outcome{st: st, kind: oReturn, res: oc.res})
+				next = append(next, Outcome{st: st, kind: oReturn, res: oc.res, ret: oc.ret})
 			}
 		}
 		cur = next
